@@ -138,13 +138,13 @@ func VfRequestAttributes(flags uint32, attrs []byte) *FileStat {
 
 type VfAllocator struct{ a *allocator }
 
-func VfNewAllocator() *VfAllocator                 { return &VfAllocator{newAllocator()} }
-func (v *VfAllocator) GetPage(id uint32) []byte    { return v.a.GetPage(id) }
-func (v *VfAllocator) ReleasePages(id uint32)      { v.a.ReleasePages(id) }
-func (v *VfAllocator) Free()                       { v.a.Free() }
-func (v *VfAllocator) Used() int                   { return v.a.countUsedPages() }
-func (v *VfAllocator) Available() int              { return v.a.countAvailablePages() }
-func (v *VfAllocator) IsUsed(id uint32) bool       { return v.a.isRequestOrderIDUsed(id) }
+func VfNewAllocator() *VfAllocator              { return &VfAllocator{newAllocator()} }
+func (v *VfAllocator) GetPage(id uint32) []byte { return v.a.GetPage(id) }
+func (v *VfAllocator) ReleasePages(id uint32)   { v.a.ReleasePages(id) }
+func (v *VfAllocator) Free()                    { v.a.Free() }
+func (v *VfAllocator) Used() int                { return v.a.countUsedPages() }
+func (v *VfAllocator) Available() int           { return v.a.countAvailablePages() }
+func (v *VfAllocator) IsUsed(id uint32) bool    { return v.a.isRequestOrderIDUsed(id) }
 func VfServerAllocUsed(s *Server) (int, int, bool) {
 	if s.pktMgr.alloc == nil {
 		return 0, 0, false
